@@ -235,7 +235,7 @@ func init() {
 func genRD(c *ctx) {
 	n := c.scale(1500, 40000)
 	for i := 0; i < n; i++ {
-		w := &wgen{rng: c.rng, maxDepth: 1 + c.rng.Intn(c.scale(4, 6)), nullLeaves: true}
+		w := &wgen{rng: c.rng, maxDepth: 1 + c.rng.Intn(c.scale(4, 6)), nullLeaves: true, withTime: i%3 == 0}
 		s := w.record(0)
 		v := w.value(s)
 		p := w.plan(s, v, c.rng.Intn(4) == 0)
